@@ -79,6 +79,16 @@ func perturbations(et int32, bits []int) []pert {
 			r.Enc.SName.Names = append(append([]string{}, r.Enc.SName.Names...), "x")
 		}, "reject", "nj"},
 		{"enc-srealm-changed", func(r *simkdc.Reply, et int32, w *cworld.World) { r.Enc.SRealm = "EVIL.REALM" }, "reject", "nj"},
+		{"enc-srealm-lower-case", func(r *simkdc.Reply, et int32, w *cworld.World) { r.Enc.SRealm = strings.ToLower(r.Enc.SRealm) }, "nj", "nj"},
+		{"enc-sname-upper-case", func(r *simkdc.Reply, et int32, w *cworld.World) {
+			var n []string
+			for _, x := range r.Enc.SName.Names {
+				n = append(n, strings.ToUpper(x))
+			}
+			r.Enc.SName.Names = n
+		}, "nj", "nj"},
+		{"enc-key-of-other-etype", func(r *simkdc.Reply, et int32, w *cworld.World) { r.Enc.Key.Type = otherEtype(r.Enc.Key.Type) }, "nj", "nj"},
+		{"enc-endtime-in-the-past", func(r *simkdc.Reply, et int32, w *cworld.World) { r.Enc.EndTime = r.Enc.AuthTime.Add(-time.Hour) }, "nj", "nj"},
 		{"ticket-realm-changed", func(r *simkdc.Reply, et int32, w *cworld.World) { r.Ticket.Realm = "EVIL.REALM" }, "nj", "nj"},
 		{"caddr-added-none-requested", func(r *simkdc.Reply, et int32, w *cworld.World) {
 			r.Enc.CAddr = []krbmsg.HostAddress{{Type: 2, Addr: []byte{10, 0, 0, 9}}}
@@ -434,4 +444,19 @@ func carriesCode(err error, code int32) bool {
 	}
 	s := err.Error()
 	return strings.Contains(s, fmt.Sprintf("(%d)", code)) || strings.Contains(s, fmt.Sprintf("ErrorCode %d", code))
+}
+
+// Pert is an exported view of one reply perturbation (reused by C20 to reach the client's reply-rejection paths).
+type Pert struct {
+	Name  string
+	Apply func(r *simkdc.Reply, et int32, w *cworld.World)
+}
+
+// Perturbations lists the catalogue for an etype.
+func Perturbations(et int32) []Pert {
+	var out []Pert
+	for _, p := range perturbations(et, []int{0, 77, -1}) {
+		out = append(out, Pert{p.name, p.apply})
+	}
+	return out
 }
